@@ -112,6 +112,10 @@ func recX(f xhttp2.Frame) frec {
 		r.A = f.Increment
 	case *xhttp2.UnknownFrame:
 		r.Payload = string(f.Payload())
+	case *xhttp2.ContinuationFrame:
+		r.Payload = string(f.HeaderBlockFragment())
+	case *xhttp2.PushPromiseFrame:
+		r.A, r.Payload = f.PromiseID, string(f.HeaderBlockFragment())
 	default:
 		r.Payload = fmt.Sprintf("unexpected frame object %T", f)
 	}
@@ -146,6 +150,10 @@ func recM(f mhttp2.Frame) frec {
 		r.A = f.Increment
 	case *mhttp2.UnknownFrame:
 		r.Payload = string(f.Payload())
+	case *mhttp2.ContinuationFrame:
+		r.Payload = string(f.HeaderBlockFragment())
+	case *mhttp2.PushPromiseFrame:
+		r.A, r.Payload = f.PromiseID, string(f.HeaderBlockFragment())
 	default:
 		r.Payload = fmt.Sprintf("unexpected frame object %T", f)
 	}
@@ -172,7 +180,7 @@ func walk(wire []byte) []logical {
 			l := logical{Type: typ, Off: off}
 			if typ == 1 {
 				frag := n
-				if flags&0x8 != 0 && n > 0 { // PADDED
+				if flags&0x8 != 0 && n > 0 && off+9 < len(wire) { // PADDED
 					frag -= 1 + int(wire[off+9])
 				}
 				if flags&0x20 != 0 { // PRIORITY
